@@ -126,8 +126,8 @@ Proof. vm_compute. reflexivity. Qed.
 
 (* glyf (hence loca), hmtx, post, gvar and HVAR are maps over the one final glyph order: whenever
    the backend produces them they have exactly one entry per glyph name, for every source. *)
-Theorem same_order_same_length : forall order src adv var hv len b,
-  be_build order src adv var hv len = Some b ->
+Theorem same_order_same_length : forall order src adv var hv nm rn b,
+  be_build order src adv var hv nm rn = Some b ->
   length (be_glyf b) = length order /\ length (be_hmtx b) = length order /\ length (be_post b) = length order
   /\ length (be_gvar b) = length order /\ length (be_hvar b) = length order.
 Proof. exact ProofsGen.same_order_same_length. Qed.
@@ -136,8 +136,8 @@ Print Assumptions same_order_same_length.
 (* every composite in the emitted glyf comes from a source composite, component by component: the
    stored glyph id is below the glyph count and is the position, in the final glyph order, of the
    glyph the source names (create_component_ref_name). *)
-Theorem component_refs_in_range : forall order src adv var hv len b,
-  be_build order src adv var hv len = Some b ->
+Theorem component_refs_in_range : forall order src adv var hv nm rn b,
+  be_build order src adv var hv nm rn = Some b ->
   forall g cs, glyph_at (be_glyf b) g = Some (GComposite cs) ->
   exists name names, nth_error order (N.to_nat g) = Some name /\ src name = SComposite names
     /\ Forall2 (fun nm c => c < N.of_nat (length (be_glyf b)) /\ nth_error order (N.to_nat c) = Some nm) names cs.
@@ -146,34 +146,58 @@ Print Assumptions component_refs_in_range.
 
 (* ... and a component naming a glyph that is not in the final order never reaches the font: the
    build fails (GlyphProblem::NotInGlyphOrder) *)
-Theorem missing_component_is_error : forall order src adv var hv len name names c,
+Theorem missing_component_is_error : forall order src adv var hv nm rn name names c,
   In name order -> src name = SComposite names -> In c names -> ~ In c order ->
-  be_build order src adv var hv len = None.
+  be_build order src adv var hv nm rn = None.
 Proof. exact ProofsGen.missing_component_is_error. Qed.
 Print Assumptions missing_component_is_error.
 
-(* every glyph name in an emitted post table fits the Pascal string it is stored in (255 bytes),
-   and a longer name fails the build (post.rs check_name_lengths) instead of corrupting the string
-   data.  `len` is the byte length of the glyph's final post name. *)
-Theorem post_names_fit : forall order src adv var hv len b,
-  be_build order src adv var hv len = Some b -> forall n, In n (be_post b) -> len n <= 255.
+(* post names.  The model follows post.rs: with production names each glyph's name is looked up
+   in public.postscriptNames, stripped of every character outside [A-Za-z0-9._] and, if an earlier
+   glyph already has that name, given the first free ".N" suffix; the length check comes AFTER that,
+   on the final names.  Whenever the backend produces a post table, its names are exactly those
+   final names, one per glyph, and every one of them fits the Pascal string it is stored in (255
+   bytes); if any final name is longer the build fails.  For every glyph order, name function and
+   rename map. *)
+Theorem post_names_fit : forall order src adv var hv nm rn b,
+  be_build order src adv var hv nm rn = Some b ->
+  be_post b = final_names order nm rn /\ forall n, In n (be_post b) -> (length n <= 255)%nat.
 Proof. exact ProofsGen.post_names_fit. Qed.
 Print Assumptions post_names_fit.
 
-Theorem long_name_is_error : forall order src adv var hv len n,
-  In n order -> 255 < len n -> be_build order src adv var hv len = None.
+Theorem long_name_is_error : forall order src adv var hv nm rn n,
+  In n (final_names order nm rn) -> (255 < length n)%nat -> be_build order src adv var hv nm rn = None.
 Proof. exact ProofsGen.long_name_is_error. Qed.
 Print Assumptions long_name_is_error.
+
+(* Why the check must follow the de-duplication: two glyphs whose production names are the same
+   254-byte string both pass a check on the incoming names, yet the second final name is
+   "<254 bytes>.1" = 256 bytes; the model (as the code) refuses.  With 253 bytes the second name is
+   exactly 255 bytes and is accepted; a 258-byte name that loses five illegal characters fits;
+   a literal "x.1" pushes a duplicate of "x" to "x.2". *)
+Example post_suffix_boundary :
+  let x := fun k => repeat 120 k in
+  let b := fun names rn => option_map be_post
+             (be_build (count_up (length names) 0) (fun _ => SEmpty) (fun n => n) (fun n => n) (fun n => n)
+                       (fun g => nth (N.to_nat g) names []) rn) in
+  forallb name_fits [x 254%nat; x 254%nat] = true
+  /\ b [x 254%nat; [116]] (Some [(1, x 254%nat)]) = None
+  /\ b [x 253%nat; [116]] (Some [(1, x 253%nat)]) = Some [x 253%nat; x 253%nat ++ [46; 49]]
+  /\ b [[97]; x 253%nat ++ [45; 32; 195; 169; 45]] (Some []) = Some [[97]; x 253%nat]
+  /\ b [[120]; [120; 46; 49]; [116]] (Some [(2, [120])]) = Some [[120]; [120; 46; 49]; [120; 46; 50]]
+  /\ b [x 254%nat; x 254%nat ++ [45]] None = Some [x 254%nat; x 254%nat ++ [45]].
+Proof. vm_compute. repeat split; reflexivity. Qed.
 
 Example be_nonvacuous :
   let order := [10; 20; 30; 40] in
   let src := fun n => if n =? 10 then SSimple 4 1 else if n =? 20 then SEmpty
                       else if n =? 30 then SComposite [10; 20] else SComposite [30; 10] in
   let id := fun n : N => n in
-  option_map be_glyf (be_build order src id id id id)
+  let nm := fun n : N => [n] in
+  option_map be_glyf (be_build order src id id id nm None)
     = Some [GSimple 4 1; GEmpty; GComposite [0; 1]; GComposite [2; 0]]
-  /\ be_build order (fun n => if n =? 40 then SComposite [99] else src n) id id id id = None
-  /\ be_build order src id id id (fun n => if n =? 30 then 256 else 255) = None.
+  /\ be_build order (fun n => if n =? 40 then SComposite [99] else src n) id id id nm None = None
+  /\ be_build order src id id id (fun n => if n =? 30 then repeat 65 256 else [n]) None = None.
 Proof. vm_compute. auto. Qed.
 
 (** * FontWork::exec and bytes_for *)
